@@ -151,4 +151,14 @@ CLAIMED['C10'] = (
     'DESIGN.md 3/C10',
 )
 
+CLAIMED['C16'] = (
+    'call-graph derived exhaustiveness of the catalog delegation (recursive tree methods of Expression vs overrides of MultipleExpression), canonical-id ordering rules, product-enumeration flow, operator sibling check (ast + CFG)',
+    'Decides: the recursive tree methods of Expression are computed from the source (19 today) and each is either forwarded by MultipleExpression to the selected member with its own '
+    'parameters in order or is in the frozen table of methods that visit all members by design - so a configured formula is traversed exactly like the hand-written one; the four '
+    'accessors delegate to the same selected(); a configuration sorts, de-duplicates and then computes its id with the separators that from_string splits on; the central controller '
+    'enumerates itertools.product over the states of all controllers of the tree; decrease is increase with the step negated, all operators are circular (modulo) and map a '
+    'complete configuration to a complete one; a catalog selects by the index of its controller, whose names must equal the catalog names. Not decided: value equality (reduces to C01).',
+    'DESIGN.md 3/C16',
+)
+
 NOT_APPLICABLE = {f'C{i:02d}': WIP for i in range(1, 20)}
